@@ -5,6 +5,11 @@
 //        P.v.i Add(v,i)  Q.v.i Subtract(v,i)  M.v *=  D.v Divide  L.k <<=  R.k >>=
 //        F FindFirstBit  G FindLastBit  C.v comparison family  T.tw narrowing conversion
 //        K.ow.v copy-assignment from BigInt{uint<ow>(v)}   X Clear
+//        E.v operator/=    V.ow.v  x = std::move(tmp{uint<ow>(v)}), returns code(tmp)
+//        W  BigInt t(std::move(x)); a = code(x); x = std::move(t); returns a + 65536 * code(t)
+//        Y  BigInt t(x); x.Clear(); x = t      Z  x = std::move(x)
+//        U.i.v.k  Storage()[i] = v; SetIndex(k)
+//        code(o) = 2 * o.Index() + (1 if any word of o is non-zero), read through the const Storage()
 //      output: step;step;...   step = Index():words:returned   (words: all MaxIndex()+1 words,
 //      trailing zero words trimmed, "-" if none)
 //   M <t> <hw> <a> <m>           DoubleSize<uint<t>, hw>::Multiply     output lo,hi
@@ -41,6 +46,14 @@ static void with_operand(unsigned ow, u64 v, F f) {
     }
 }
 
+// what a history observes of a secondary object (read access through the const overloads)
+template <typename BI>
+static u64 obj_code(const BI &o) {
+    u64 nz = 0;
+    for (SizeT32 i = 0; i <= BI::MaxIndex(); i++) nz |= u64(o.Storage()[i] != 0);
+    return 2U * u64(o.Index()) + nz;
+}
+
 template <typename W, SizeT32 BITS>
 static std::string run_seq(const std::vector<std::string> &ops) {
     using BI = BigInt<W, BITS>;
@@ -73,6 +86,39 @@ static std::string run_seq(const std::vector<std::string> &ops) {
             case 'F': ret = x.FindFirstBit(); break;
             case 'G': ret = x.FindLastBit(); break;
             case 'X': x.Clear(); break;
+            case 'E': x /= W(num(f[1])); break;
+            case 'V':
+                with_operand<W, BITS>(unsigned(num(f[1])), num(f[2]), [&](auto v) {
+                    BI *tmp = new BI(v);
+                    x       = static_cast<BI &&>(*tmp);
+                    ret     = obj_code(*tmp);
+                    delete tmp;
+                });
+                break;
+            case 'W': {
+                BI *t       = new BI(static_cast<BI &&>(x));
+                const u64 a = obj_code(x);
+                x           = static_cast<BI &&>(*t);
+                ret         = a + 65536U * obj_code(*t);
+                delete t;
+                break;
+            }
+            case 'Y': {
+                BI *t = new BI(x);
+                x.Clear();
+                x = *t;
+                delete t;
+                break;
+            }
+            case 'Z': {
+                BI &alias = x;
+                x         = static_cast<BI &&>(alias);
+                break;
+            }
+            case 'U':
+                x.Storage()[SizeT32(num(f[1]))] = W(num(f[2]));
+                x.SetIndex(SizeT32(num(f[3])));
+                break;
             case 'C': {
                 const W    v = W(num(f[1]));
                 const bool b[15] = {x < v,  x <= v, x > v,  x >= v, x == v,     x != v,      v < x,     v <= x,
@@ -92,14 +138,15 @@ static std::string run_seq(const std::vector<std::string> &ops) {
             default: delete px; return "BADCASE";
         }
         if (k) out += ';';
-        out += std::to_string(x.Index());
+        const BI &cx = x;   // read access: Index() and the const Storage()
+        out += std::to_string(cx.Index());
         out += ':';
         SizeT32 top = BI::MaxIndex() + 1U;
-        while (top > 0 && x.Storage()[top - 1U] == 0) --top;
+        while (top > 0 && cx.Storage()[top - 1U] == 0) --top;
         if (top == 0) out += '-';
         for (SizeT32 i = 0; i < top; i++) {
             if (i) out += ',';
-            out += std::to_string(u64(x.Storage()[i]));
+            out += std::to_string(u64(cx.Storage()[i]));
         }
         out += ':';
         out += std::to_string(ret);
